@@ -114,7 +114,20 @@ impl Analyzable for WithdrawalField {
 
 impl Analyzable for WithdrawalBlock {
     fn analyze(&mut self, parent: Option<Rc<Scope>>) -> AnalyzeReport {
-        self.fields.analyze(parent)
+        let mut report = self.fields.analyze(parent);
+
+        for required in ["from", "amount"] {
+            if self.find(required).is_none() {
+                report
+                    .errors
+                    .push(crate::analyzing::Error::invalid_construct(
+                        format!("withdrawal lacks the required field '{}'", required),
+                        &self.span,
+                    ));
+            }
+        }
+
+        report
     }
 
     fn is_resolved(&self) -> bool {
